@@ -138,7 +138,7 @@ def run_case(case):
             # The derivative is assembled from the reactions' own rates: the expected value uses the rates the interface
             # reports (so floating-point differences inside a rate law, e.g. sympy re-ordering a general rate, do not enter),
             # and is asserted only where those rates agree with the reference rate laws (a rate-law defect belongs to C01/C02).
-            if any(abs(float(g) - e) > 1e-7 * max(1.0, abs(e)) for g, e in zip(got_r, expr)):
+            if any(not (abs(float(g) - e) <= 1e-7 * max(1.0, abs(e))) for g, e in zip(got_r, expr)):
                 C["rate_mismatch_skipped"] += 1
                 continue
             dx = np.full(len(idx), 12345.0)
@@ -148,7 +148,7 @@ def run_case(case):
                 want = math.fsum(terms)
                 scale = sum(abs(t_) for t_ in terms)
                 C["derivative_components_compared"] += 1
-                if abs(dx[i] - want) > 1e-13 * max(scale, 1e-300) + 1e-300:
+                if not (abs(dx[i] - want) <= 1e-13 * max(scale, 1e-300) + 1e-300):
                     viol.append({"key": "C03/derivative", "msg": "route %s order %s: d%s/dt=%r expected sum (S+Sd)*rate = %r at %s t=%s" % (route, perm, s, dx[i], want, pt["x"], pt["t"])})
                     break
         if len(viol) > 4:
